@@ -254,6 +254,11 @@ def conformance(trace_path, workdir, name, consts=None, max_rounds=6, timeout=No
             # TLC did not get as far as its postcondition (killed, out of memory on an overloaded machine ...): conformance is
             # additional information, not part of the verdict: these traces are simply not checked
             log("note: conformance run produced no high-water mark (%s); traces left unchecked" % " | ".join(out.splitlines()[-2:]))
+            if os.environ.get("VERIF_DEBUG"):
+                ls = out.splitlines()
+                for k, ln in enumerate(ls):
+                    if "Error" in ln or "rror:" in ln:
+                        log("\n".join(ls[k:k + 30]))
             break
         hwm, total = int(m.group(1)), int(m.group(2))
         curt = []
